@@ -74,6 +74,8 @@ type xfer struct {
 	forcePause  bool
 	// validator outcomes for this transfer: 0 accept, 1 reject, 2 error
 	newOutcome     int
+	dupOutcome     int  // outcome of the validator when the same new request is validated again (duplicate new-requests): 0 accept, 1 reject, 2 reject with voucher result, 3 error
+	newValidations int  // how often the new-request validator has been asked about this transfer
 	restartOutcome int
 	rejectResult   bool // a rejection carries a voucher result
 	rawKind        string // hand-built request variant ("" = normal open): "no-voucher", "no-selector"
@@ -278,6 +280,20 @@ func (nr *netRun) validateNew(n *Node, kind string, chid datatransfer.ChannelID)
 		if nr.cfg.vouchers {
 			res.VoucherResult = &datatransfer.TypedVoucher{Voucher: basicnode.NewString(fmt.Sprintf("vr-new-%d", x.idx)), Type: "R0"}
 		}
+		x.newValidations++
+		if x.newValidations > 1 && x.dupOutcome != 0 {
+			// a duplicate of an already validated new request: the validator may well decide differently this time
+			switch x.dupOutcome {
+			case 1:
+				res.Accepted = false
+			case 2:
+				res.Accepted = false
+				res.VoucherResult = &datatransfer.TypedVoucher{Voucher: basicnode.NewString(fmt.Sprintf("vr-dup-reject-%d", x.idx)), Type: "R0"}
+			case 3:
+				return res, errors.New("validator failed on the duplicate")
+			}
+			return res, nil
+		}
 		switch x.newOutcome {
 		case 1:
 			res.Accepted = false
@@ -377,6 +393,9 @@ func (nr *netRun) genXfer(i int) *xfer {
 	}
 	if nr.cfg.forcePause && r.Intn(3) == 0 {
 		x.forcePause = true
+	}
+	if nr.cfg.advDup {
+		x.dupOutcome = r.Intn(4)
 	}
 	if nr.cfg.rejects {
 		switch r.Intn(6) {
@@ -586,24 +605,41 @@ func (nr *netRun) scheduleOps(x *xfer) {
 	}
 	if cfg.vouchers && r.Intn(2) == 0 {
 		wait := 2 + r.Intn(10*len(x.walk)+10)
+		nV := 1 + r.Intn(4)
+		vSeq, gapsV := make([]int, nV), make([]int, nV)
+		for i := range vSeq {
+			vSeq[i], gapsV[i] = r.Intn(2), r.Intn(40)
+		}
 		r.Op("A", "app:send-voucher", func() {
 			yieldN(wait)
 			if !x.opened {
 				return
 			}
-			v := datatransfer.TypedVoucher{Voucher: basicnode.NewString(fmt.Sprintf("v%d-extra", x.idx)), Type: "T0"}
-			op := nr.api(nr.A, "SendVoucher", x, func() error { return nr.A.Mgr.SendVoucher(context.Background(), x.chid, v) })
-			op.Arg = encTV(v)
+			// 1-4 vouchers in a row, contents from a set of two so that the same content repeats (also back to back)
+			for i := 0; i < nV; i++ {
+				v := datatransfer.TypedVoucher{Voucher: basicnode.NewString(fmt.Sprintf("v%d-extra-%d", x.idx, vSeq[i])), Type: "T0"}
+				op := nr.api(nr.A, "SendVoucher", x, func() error { return nr.A.Mgr.SendVoucher(context.Background(), x.chid, v) })
+				op.Arg = encTV(v)
+				yieldN(gapsV[i])
+			}
 		})
 		wait2 := 2 + r.Intn(10*len(x.walk)+10)
+		nR := 1 + r.Intn(4)
+		rSeq, gapsR := make([]int, nR), make([]int, nR)
+		for i := range rSeq {
+			rSeq[i], gapsR[i] = r.Intn(2), r.Intn(40)
+		}
 		r.Op("B", "app:send-voucher-result", func() {
 			yieldN(wait2)
 			if !x.opened {
 				return
 			}
-			v := datatransfer.TypedVoucher{Voucher: basicnode.NewString(fmt.Sprintf("vr%d-extra", x.idx)), Type: "R0"}
-			op := nr.api(nr.B, "SendVoucherResult", x, func() error { return nr.B.Mgr.SendVoucherResult(context.Background(), x.chid, v) })
-			op.Arg = encTV(v)
+			for i := 0; i < nR; i++ {
+				v := datatransfer.TypedVoucher{Voucher: basicnode.NewString(fmt.Sprintf("vr%d-extra-%d", x.idx, rSeq[i])), Type: "R0"}
+				op := nr.api(nr.B, "SendVoucherResult", x, func() error { return nr.B.Mgr.SendVoucherResult(context.Background(), x.chid, v) })
+				op.Arg = encTV(v)
+				yieldN(gapsR[i])
+			}
 		})
 	}
 	if cfg.closes && r.Intn(3) == 0 {
